@@ -86,6 +86,7 @@ func vStub_os_Stat(name string) (fs.FileInfo, error) {
 }
 
 var vNSOpen = map[*os.File]string{}
+var vNSWrote = map[*os.File]bool{} // handles something was written through
 
 func vStub_os_OpenFile(name string, flag int, perm os.FileMode) (*os.File, error) {
 	name = filepath.Clean(name)
@@ -107,6 +108,7 @@ func vStub_os_File_Write(f *os.File, b []byte) (int, error) {
 		if n == name {
 			vNSData[i] = append(append([]byte(nil), vNSData[i]...), b...) // O_APPEND
 			vNSWrites++
+			vNSWrote[f] = true
 			return len(b), nil
 		}
 	}
@@ -178,4 +180,27 @@ func (s *vNSStore) ReadFile(name string) ([]byte, error) {
 		return append([]byte(nil), vNSData[i]...), nil
 	}
 	return nil, fs.ErrNotExist
+}
+
+// removals act on the same namespace (a store whose Remove did nothing would hide a partial upload being deleted)
+func (s *vNSStore) Remove(name string) error {
+	name = filepath.Clean(name)
+	i := vNSFind(name)
+	if i < 0 {
+		return fs.ErrNotExist
+	}
+	vNSNames = append(vNSNames[:i:i], vNSNames[i+1:]...)
+	vNSData = append(vNSData[:i:i], vNSData[i+1:]...)
+	return nil
+}
+func (s *vNSStore) RemoveAll(name string) error {
+	name = filepath.Clean(name)
+	for i := len(vNSNames) - 1; i >= 0; i-- {
+		n := vNSNames[i]
+		if n == name || len(n) > len(name) && n[:len(name)] == name && n[len(name)] == '/' {
+			vNSNames = append(vNSNames[:i:i], vNSNames[i+1:]...)
+			vNSData = append(vNSData[:i:i], vNSData[i+1:]...)
+		}
+	}
+	return nil
 }
